@@ -5,7 +5,7 @@
 // thread may run between the store and the plain writes that follow it).
 //
 // Virtual package github.com/dappledger/AnnChain/vshim/vatomic; sources in
-// /verif/sched/shim/vatomic (generated by the python snippet in README).
+// /verif/sched/shim/vatomic (the per-type functions are mechanical copies of one pattern).
 // Go 1.12 language level.
 package vatomic
 
